@@ -18,6 +18,7 @@ mod rng;
 mod runner;
 mod sched;
 mod shrink;
+mod stable;
 mod tpool;
 
 const FROZEN_VECTORS: &str = include_str!("../vectors/frozen_vectors.json");
